@@ -65,6 +65,8 @@ def cases(tier, seed):
                 for dvr in (False, True):
                     for sym in SINE_SYMBOLS:
                         yield {"k": "sine", "nbas": nbas, "xi": xi, "xf": xf, "endpoint": endpoint, "dvr": dvr, "sym": sym}
+    for name in copy_objects():
+        yield {"k": "copy", "obj": name}
     for s1 in SPIN_SYMBOLS:
         yield {"k": "spin1", "sym": s1}
         for s2 in SPIN_SYMBOLS:
@@ -185,8 +187,8 @@ def run_sho(desc):
         elif all(t == "p" or t.startswith("p^") or t == "dx" or t.startswith("dx^") for t in toks):
             ref = V.T @ ref @ V
         else:
-            # mixed x/p products are defined in the occupation basis only; skip under DVR
-            return {"skipped": 1, "outcome": "mixed-under-dvr"}
+            # mixed x/p products: "DVR variants are unitarily consistent with the plain ones" -- the plain matrix in the rotated basis
+            ref = V.T @ ref @ V
     viol = []
     cls = "mixed-xp-product" if s in ("x p", "p x", "x dx", "dx x") else ("second-quantised" if second_q else "xp-power")
     if got.shape != ref.shape or not close(got, ref, TOL, floor=1e-12):
@@ -714,8 +716,61 @@ def run_repeat(desc):
     return {"nontrivial": n > 0, "counters": {"op_mat_calls": n}, "outcome": "repeat:ok" if not viol else "repeat:viol", "viol": list(viol.values()), "sample": {"desc": desc, "symbols": len(accepted)}}
 
 
+def copy_objects():
+    """name -> (factory, symbols): every basis class with every constructor flag that changes its matrices or labels"""
+    from renormalizer.model import basis as ba
+    O = {}
+    for dvr in (False, True):
+        for gxp in (False, True):
+            O[f"BasisSHO(x0=0.7,dvr={dvr},general_xp_power={gxp})"] = (lambda d, dvr=dvr, gxp=gxp: ba.BasisSHO(d, 1.3, 4, x0=0.7, dvr=dvr, general_xp_power=gxp), ("x", "x^2", "p", "p^2", "x p"))
+    for endpoint in (False, True):
+        for quad in (False, True):
+            for dvr in (False, True):
+                O[f"BasisSineDVR(endpoint={endpoint},quadrature={quad},dvr={dvr})"] = (
+                    lambda d, e=endpoint, q=quad, v=dvr: ba.BasisSineDVR(d, 4, -1.0, 2.0, endpoint=e, quadrature=q, dvr=v), ("x", "x^2", "dx", "p^2", "x dx"))
+    O["BasisSimpleElectron()"] = (lambda d: ba.BasisSimpleElectron(d), ("a", r"a^\dagger a"))
+    O["BasisSimpleElectron(sigmaqn=[0,2])"] = (lambda d: ba.BasisSimpleElectron(d, sigmaqn=[0, 2]), ("a", r"a^\dagger a"))
+    O["BasisSimpleElectron(sigmaqn=two components)"] = (lambda d: ba.BasisSimpleElectron(d, sigmaqn=[[0, 0], [1, 0]]), ("a", r"a^\dagger a"))
+    O["BasisHalfSpin()"] = (lambda d: ba.BasisHalfSpin(d), ("sigma_x", "sigma_z"))
+    O["BasisHalfSpin(sigmaqn=[0,1])"] = (lambda d: ba.BasisHalfSpin(d, sigmaqn=[0, 1]), ("sigma_x", "sigma_z"))
+    O["BasisHopsBoson(nbas=3)"] = (lambda d: ba.BasisHopsBoson(d, 3), ("I",))
+    O["BasisDummy(nbas=2,sigmaqn=[0,1])"] = (lambda d: ba.BasisDummy(d, 2, sigmaqn=[0, 1]), ("I",))
+    return O
+
+
+def run_copy(desc):
+    """copy(new_dof): 'a copy of the basis set with new DoF name' -- same size, same labels, same matrices for every supported symbol"""
+    fac, syms = copy_objects()[desc["obj"]]
+    b = fac("v")
+    viol = []
+    try:
+        c = b.copy("w")
+    except Exception as e:
+        return {"nontrivial": True, "outcome": "copy:exception", "viol": [{"sig": f"C16:copy:exception:{type(e).__name__}", "msg": f"{desc['obj']}.copy('w') raised {e!r}"}]}
+    if c.dof != "w":
+        viol.append({"sig": "C16:copy:dof", "msg": f"{desc['obj']}.copy('w') has dof {c.dof!r}"})
+    if c.nbas != b.nbas or not np.array_equal(np.asarray(c.sigmaqn), np.asarray(b.sigmaqn)):
+        viol.append({"sig": "C16:copy:labels", "msg": f"{desc['obj']}.copy('w'): nbas {b.nbas} -> {c.nbas}, sigmaqn {np.asarray(b.sigmaqn).tolist()} -> {np.asarray(c.sigmaqn).tolist()}"})
+    for sym in syms:
+        try:
+            mb = np.asarray(b.op_mat(sym))
+        except Exception:
+            continue
+        try:
+            mc = np.asarray(c.op_mat(sym))
+        except Exception as e:
+            viol.append({"sig": "C16:copy:matrices", "msg": f"{desc['obj']}.copy('w').op_mat({sym!r}) raised {e!r}, the original returns a matrix"})
+            continue
+        if mb.shape != mc.shape or not close(mc, mb, TOL, floor=1e-12):
+            viol.append({"sig": "C16:copy:matrices", "msg": f"{desc['obj']}.copy('w').op_mat({sym!r}) differs from the original's by rel {rel_err(mc, mb) if mb.shape == mc.shape else float('inf'):.2e}"})
+            break
+    return {"nontrivial": True, "outcome": f"copy:{'viol' if viol else 'ok'}", "viol": viol, "sample": {"desc": desc}}
+
+
 def run_case(desc, seed):
     k = desc["k"]
+    if k == "copy":
+        return run_copy(desc)
     if k == "repeat":
         return run_repeat(desc)
     if k == "sho":
